@@ -60,8 +60,19 @@ func TestTokenSoup(t *testing.T) {
 	rapid.Check(t, func(rt *rapid.T) {
 		in := input{noMain: rapid.IntRange(0, 3).Draw(rt, "noMain") == 0}
 		switch rapid.IntRange(0, 9).Draw(rt, "mode") {
-		case 0, 1, 2, 3:
+		case 0, 1, 2:
 			in.kind, in.text = "soup", genSoup(rt)
+			in.variants = drawVariants(rt, 1)
+		case 3, 4, 5:
+			// a valid program (typed generator, repository example or test) with one to three
+			// token edits; replacement tokens mostly come from the same program
+			in.kind = "mutant"
+			if rapid.IntRange(0, 2).Draw(rt, "base") == 0 {
+				in.text = rapid.SampledFrom(repoTexts()).Draw(rt, "repo-program")
+			} else {
+				in.text = px.FromGenerated(gen.Program(rt, gen.ModelCfg())).Modules["main"]
+			}
+			in.text = mutate(rt, in.text)
 			in.variants = drawVariants(rt, 1)
 		default:
 			in.kind, in.text = "grammar", genGrammar(rt, false)
@@ -75,6 +86,64 @@ func TestTokenSoup(t *testing.T) {
 		}
 		evaluate(in, rep)
 	})
+}
+
+var (
+	repoOnce sync.Once
+	repoText []string
+)
+
+// repoTexts: the repository's example and test programs up to 4 KiB.
+func repoTexts() []string {
+	repoOnce.Do(func() {
+		for _, pat := range []string{"/repo/examples/*.hms", "/repo/tests/*.hms"} {
+			files, _ := filepath.Glob(pat)
+			sort.Strings(files)
+			for _, f := range files {
+				if b, err := os.ReadFile(f); err == nil && len(b) <= 4096 {
+					repoText = append(repoText, string(b))
+				}
+			}
+		}
+		repoText = append(repoText, seedPrograms...)
+		repoText = append(repoText, probePrograms...)
+	})
+	return repoText
+}
+
+// mutate applies one to three token edits; a replacement is another token of the same program
+// (names, types, keywords and literals in the wrong place) or a hostile token.
+func mutate(rt *rapid.T, text string) string {
+	for k, n := 0, rapid.IntRange(1, 3).Draw(rt, "mutations"); k < n; k++ {
+		parts := units(text, "token")
+		var pos []int
+		for i, s := range parts {
+			if strings.TrimSpace(s) != "" {
+				pos = append(pos, i)
+			}
+		}
+		if len(pos) < 2 {
+			return text
+		}
+		i := pos[rapid.IntRange(0, len(pos)-1).Draw(rt, "mut-pos")]
+		j := pos[rapid.IntRange(0, len(pos)-1).Draw(rt, "mut-other")]
+		switch rapid.IntRange(0, 9).Draw(rt, "mut-kind") {
+		case 0:
+			parts[i] = ""
+		case 1:
+			parts[i] = parts[i] + " " + parts[i]
+		case 2:
+			parts[i], parts[j] = parts[j], parts[i]
+		case 3, 4:
+			parts[i] = rapid.SampledFrom(hostileTokens).Draw(rt, "mut-token")
+		case 5:
+			parts[i] = rapid.SampledFrom(names).Draw(rt, "mut-name")
+		default:
+			parts[i] = parts[j]
+		}
+		text = strings.Join(parts, "")
+	}
+	return text
 }
 
 // editRandom applies one or two random token-level edits.
@@ -137,6 +206,9 @@ var (
 // grammar-soup programs (all parse, few analyse cleanly). Deterministic.
 func corpus(t *testing.T, n int) []program {
 	out := repoPrograms(t)
+	for i, p := range probePrograms {
+		out = append(out, program{name: fmt.Sprintf("probe-%d", i), text: p})
+	}
 	for i := 0; i < n; i++ {
 		out = append(out, program{name: fmt.Sprintf("typed-%d", i), text: typedGen.Example(i + 1)})
 	}
@@ -342,6 +414,18 @@ func TestDepth(t *testing.T) {
 			input{kind: "depth:import-chain-cycle", text: fmt.Sprintf("import { h0 } from m0;\npub fn h%d() { h0(); }\n", n), depthHint: n, skipEntry: true, variants: []string{v}},
 			input{kind: "depth:import-chain-to-entry", text: fmt.Sprintf("import { main } from main;\npub fn h%d() { main(); }\n", n), depthHint: n, skipEntry: true, variants: []string{v}})
 	}
+	// acyclic import graphs with 2^n paths (two modules per layer, each importing both of the next)
+	for _, n := range []int{1, 2, 10, 16, 20, 30, 100, 1000} {
+		k++
+		if !pk.Mine(k) {
+			continue
+		}
+		if n > 20 && pk.GateOpen("import-graph-paths") {
+			pk.Gate("import-graph-paths") // every one of these exhausts the hang budget while the finding is open
+			continue
+		}
+		work = append(work, input{kind: "depth:import-diamond", text: "pub fn f() {}\npub fn g() {}\n", depthHint: n, skipEntry: true, variants: []string{fmt.Sprintf("diamond-%d", n)}})
+	}
 	var mu sync.Mutex
 	n := 0
 	parallel(len(work), func(i int) {
@@ -352,6 +436,23 @@ func TestDepth(t *testing.T) {
 	})
 	pk.Extra("depth-inputs", n)
 	t.Logf("depth: %d inputs (%d nesting generators x %v, %d bulk generators; entry, entry without main, 3 module variants)", n, len(depthGens), depths, len(bulkGens))
+	col.col.Done(t)
+}
+
+// TestProbes: the hand-written programs in every variant, with and without the main requirement.
+func TestProbes(t *testing.T) {
+	pk.SkipIfReplay(t)
+	col := newCollector()
+	var work []input
+	for k, p := range append(append([]string{}, probePrograms...), seedPrograms...) {
+		if !pk.Mine(k) {
+			continue
+		}
+		work = append(work, input{kind: "probe", text: p, variants: moduleVariants},
+			input{kind: "probe", text: p, noMain: true, variants: moduleVariants})
+	}
+	parallel(len(work), func(i int) { evaluate(work[i], col.report) })
+	pk.Extra("probe-inputs", len(work))
 	col.col.Done(t)
 }
 
